@@ -536,7 +536,7 @@ func c02Gen(r *Run) {
 	thorough := r.Tier == "thorough"
 	budget := 45 * time.Second
 	if thorough {
-		budget = 8 * time.Minute
+		budget = 5 * time.Minute
 	}
 	if b := os.Getenv("C02_BUDGET_S"); b != "" {
 		var n int
